@@ -50,6 +50,9 @@ type RecRes struct {
 	// Store, if set, is the store handle that also holds the session (the "all local data in one db.Db" deployment of
 	// examples/db): every external function keeps a note in it under the user-data type and leaves the handle that way
 	Store db.Db
+	// OnCall, if set, runs inside every external function with the context the engine passed (application code that
+	// logs with the session id from the context)
+	OnCall func(ctx context.Context, sym string)
 }
 
 const OpCapPanic = "harness-op-cap: the request made more callbacks than the cap (runaway execution)"
@@ -129,6 +132,9 @@ func (r *RecRes) FuncFor(ctx context.Context, sym string) (resource.EntryFunc, e
 	return func(ctx context.Context, s string, input []byte) (resource.Result, error) {
 		if r.Yield != nil {
 			r.Yield()
+		}
+		if r.OnCall != nil {
+			r.OnCall(ctx, sym)
 		}
 		l := ctxLang(ctx)
 		r.Calls[sym]++
